@@ -19,7 +19,7 @@ type aeFinding struct {
 
 type aeResult struct {
 	loopSums   map[string]*loopSummary
-	sig        map[string]map[string]bool // law -> term keys that differ between individuals in failing worlds
+	sig        map[string]*coreSet // law -> term keys that differ between individuals in failing worlds
 	nfail      map[string]int
 	root       *ssa.Function
 	oof        string // non-empty: the function is out of fragment
@@ -87,7 +87,7 @@ func (c *aeCtx) candidates(w *world, na needAtom) []int {
 		}
 		var dom *fieldDomain
 		if o, ok := c.originOf[na.key]; ok && ti.kind == akOrder && isStringType(ti.t) {
-			dom = c.fieldDomain(o)
+			dom = c.fieldDomainFor(na.key, o)
 		}
 		if dom == nil && ti.kind == akOrder && isStringType(ti.t) && len(ti.base) == 1 {
 			// a case/space normalisation of a field with a closed domain has the image of that domain
@@ -162,6 +162,9 @@ func (c *aeCtx) posOK(w *world, key string, ti *termInfo, p, v int, isLen bool) 
 		if !c.derivedConsistent(w2, key) {
 			return false
 		}
+		if strings.Contains(key, "[0]") && !c.zipHeadOK(w2) {
+			return false
+		}
 	}
 	if isLen {
 		pk := "present:" + strings.TrimSuffix(strings.TrimPrefix(key, "len("), ")")
@@ -181,11 +184,48 @@ func (c *aeCtx) posOK(w *world, key string, ti *termInfo, p, v int, isLen bool) 
 	return true
 }
 
+// zipHeadOK: a zip relation that ties implies that the tie-determined element terms are equal at
+// index 0 (when the code also reads x.seq[0] directly).
+func (c *aeCtx) zipHeadOK(w *world) bool {
+	for rk, v := range w.rel {
+		if v != 0 || !strings.HasPrefix(rk, "zip:") {
+			continue
+		}
+		i := strings.LastIndex(rk, "|")
+		j := strings.LastIndex(rk[:i], "|")
+		key := rk[:j]
+		var p, q int
+		fmt.Sscanf(rk[j+1:], "%d|%d", &p, &q)
+		open := strings.LastIndex(key, "(")
+		if open < 0 {
+			continue
+		}
+		id, seq := key[len("zip:"):open], strings.TrimSuffix(key[open+1:], ")")
+		s := c.lsum[id]
+		if s == nil {
+			continue
+		}
+		for _, k := range s.tieEq {
+			head := seq + "[0]" + k[strings.Index(k, "[i]")+3:]
+			if c.terms[head] == nil {
+				continue
+			}
+			if hv, ok := c.cmpAssigned(w, head, p, q); ok && hv != 0 {
+				return false
+			}
+		}
+	}
+	return true
+}
+
 func (c *aeCtx) relOK(w *world, key string, ti *termInfo, p, q, v int, isLen bool) bool {
 	{
 		w2 := w.clone()
 		w2.rel[relKey(key, p, q)] = v
 		if !c.derivedConsistent(w2, key) {
+			return false
+		}
+		if (strings.HasPrefix(key, "zip:") || strings.Contains(key, "[0]")) && !c.zipHeadOK(w2) {
 			return false
 		}
 	}
@@ -372,18 +412,16 @@ func (c *aeCtx) analyseLoop(root *ssa.Function, fn *ssa.Function, l *loop) *loop
 	}
 	problem := func(w *world, law, msg string) {
 		if sum.lawSig == nil {
-			sum.lawSig = map[string]map[string]bool{}
+			sum.lawSig = map[string]*coreSet{}
 			sum.lawN = map[string]int{}
 			sum.lawFirst = map[string]string{}
 		}
 		if sum.lawSig[law] == nil {
-			sum.lawSig[law] = map[string]bool{}
+			sum.lawSig[law] = &coreSet{}
 			sum.lawFirst[law] = fmt.Sprintf("%s [world: %s]", msg, w.describe(c.pools, c.terms))
 		}
 		sum.lawN[law]++
-		for _, k := range c.untiedKeys(w) {
-			sum.lawSig[law][k] = true
-		}
+		sum.lawSig[law].add(c.untiedKeys(w), fmt.Sprintf("%s [world: %s]", msg, w.describe(c.pools, c.terms)))
 		if len(sum.problems) < 6 {
 			sum.problems = append(sum.problems, fmt.Sprintf("%s: %s [world: %s]", law, msg, w.describe(c.pools, c.terms)))
 		}
@@ -461,6 +499,31 @@ func (c *aeCtx) analyseLoop(root *ssa.Function, fn *ssa.Function, l *loop) *loop
 	if sum.checked == 0 {
 		sum.why = "loop never reached"
 		return sum
+	}
+	// tie-determined element terms
+	{
+		cand := map[string]bool{}
+		for k, ti := range c.terms {
+			if strings.Contains(k, "[i]") && len(ti.base) == 0 && (ti.kind == akOrder || ti.kind == akBool || ti.kind == akNil) {
+				cand[k] = true
+			}
+		}
+		ties := 0
+		c.explore(2, 400000, func(w *world) {
+			o := c.runIter(root, w, 0, 1, fn, l)
+			if o == nil || o.kind != "continue" {
+				return
+			}
+			ties++
+			for k := range cand {
+				if v, ok := c.cmpAssigned(w, k, 0, 1); !ok || v != 0 {
+					delete(cand, k)
+				}
+			}
+		})
+		if ties > 0 {
+			sum.tieEq = keysOf(cand)
+		}
 	}
 	sum.ok = true // summarised as a relation even if laws fail: failures are reported separately
 	_ = id
@@ -543,7 +606,7 @@ func (c *aeCtx) analyse(root *ssa.Function) *aeResult {
 		}()
 		res.findings = nil
 		res.worlds = map[string]int{}
-		res.sig = map[string]map[string]bool{}
+		res.sig = map[string]*coreSet{}
 		res.nfail = map[string]int{}
 		add := func(w *world, law, detail string) {
 			if c.scope != nil && !c.scope(w) {
@@ -551,11 +614,9 @@ func (c *aeCtx) analyse(root *ssa.Function) *aeResult {
 			}
 			res.nfail[law]++
 			if res.sig[law] == nil {
-				res.sig[law] = map[string]bool{}
+				res.sig[law] = &coreSet{}
 			}
-			for _, k := range c.untiedKeys(w) {
-				res.sig[law][k] = true
-			}
+			res.sig[law].add(c.untiedKeys(w), fmt.Sprintf("%s [%s]", detail, w.describe(c.pools, c.terms)))
 			if len(res.findings) < 12 {
 				res.findings = append(res.findings, aeFinding{law, detail, w.describe(c.pools, c.terms)})
 			}
@@ -723,6 +784,60 @@ func (c *aeCtx) dependents(key string) []string {
 		c.depIndexN = len(c.terms)
 	}
 	return c.depIndex[key]
+}
+
+// coreSet: the minimal sets of untied terms among failing worlds (an antichain). Each minimal set
+// is reported as a separate finding: it names the terms whose difference suffices for the failure,
+// and it does not change when unrelated parts of the comparator change.
+type coreSet struct {
+	cores [][]string
+	ex    []string
+	n     []int
+}
+
+func subsetOf(a, b []string) bool { // both sorted
+	j := 0
+	for _, x := range a {
+		for j < len(b) && b[j] < x {
+			j++
+		}
+		if j >= len(b) || b[j] != x {
+			return false
+		}
+	}
+	return true
+}
+
+func (cs *coreSet) add(u []string, ex string) {
+	for i, c := range cs.cores {
+		if subsetOf(c, u) {
+			cs.n[i]++
+			return
+		}
+	}
+	var cores [][]string
+	var exs []string
+	var ns []int
+	cnt := 1
+	for i, c := range cs.cores {
+		if subsetOf(u, c) {
+			cnt += cs.n[i]
+			continue
+		}
+		cores, exs, ns = append(cores, c), append(exs, cs.ex[i]), append(ns, cs.n[i])
+	}
+	cs.cores, cs.ex, cs.n = append(cores, u), append(exs, ex), append(ns, cnt)
+}
+
+func (cs *coreSet) sorted() []int {
+	idx := make([]int, len(cs.cores))
+	for i := range idx {
+		idx[i] = i
+	}
+	sort.Slice(idx, func(a, b int) bool {
+		return strings.Join(cs.cores[idx[a]], ",") < strings.Join(cs.cores[idx[b]], ",")
+	})
+	return idx
 }
 
 // untiedKeys: terms on which at least two individuals of the world differ.
